@@ -371,7 +371,8 @@ Scenario(n) ==
    inputs |-> IF FAMILY = "diag" THEN <<>> ELSE IF FAMILY = "bytes" THEN ByteInputs(H(SEED, n + 17)) ELSE Inputs(H(SEED, n + 17), G),
    plan |-> IF FAMILY = "diag" THEN <<>> ELSE Plan(G),
    hist |-> IF FAMILY = "diag" THEN <<>> ELSE Hists(H(SEED, n + 29), Len(Inputs(H(SEED, n + 17), G))),
-   collect |-> Fam.collect, allu |-> FAMILY = "reuse", norun |-> FAMILY = "diag", actstyle |-> Style(G).act]
+   collect |-> [toks |-> Fam.collect.toks, exec |-> Fam.collect.exec, ast |-> Fam.collect.ast, msg |-> Fam.collect.msg,
+                evs |-> ("GEN_EVS" \in DOMAIN IOEnv /\ IOEnv.GEN_EVS = "1")], allu |-> FAMILY = "reuse", norun |-> FAMILY = "diag", actstyle |-> Style(G).act]
 
 IsWF(n) == FAMILY = "diag" \/ WFB(BodyMap(Core(Candidate(n))))
 
